@@ -1028,6 +1028,7 @@ def c18_stack(tier):
         jobs.append(("x-bars", n, True))
     jobs.append(("x-union", 600000, False))
     jobs.append(("x-bars", 300000, False))
+    jobs.append(("x-holes", 100000, True))
     from concurrent.futures import ThreadPoolExecutor
     def run(j):
         name, n, thr = j
@@ -1046,7 +1047,27 @@ def c18_stack(tier):
             elif span is not None and span > 2048:
                 # an iterative teardown drops every key at the same stack depth; recursion shows as a span
                 findings.append(_F("O", "stack: scenario %s n=%d drops keys over a stack depth range of %d bytes: the teardown recurses" % (name, n, span), scenario=["stack", name, str(n)] + (["thread"] if thr else [])))
+    findings.extend(_dev_stack_jobs(rows))
     return findings, {"stack_scenarios": rows, "samples": [{"scenario": r["scenario"], "n": r["n"], "exit": r["exit"]} for r in rows[:3]]}
+
+
+def _dev_stack_jobs(rows):
+    """the same kind of scenario in an UNOPTIMISED build: the optimiser turns some recursions into loops (then
+    only the running time shows them), an unoptimised build overflows (seed C03-5)"""
+    out = []
+    ok, log = runner.build_harness_dev()
+    if not ok:
+        out.append(_F("H", "the unoptimised harness does not build: %s" % log[-300:]))
+        return out
+    for name, n in (("x-holes", 40000), ("x-union", 40000), ("mono-drop", 300000), ("rev-remove", 300000)):
+        args = [runner.harness_bin_dev(), "stack", name, str(n), "thread"]      # 2 MiB stack
+        rc, o, err = _child(args, 900)
+        rows.append({"scenario": name + " (unoptimised build)", "n": n, "thread_2MiB": True, "exit": rc, "drop_depth_span_bytes": None})
+        if rc != 0 or "DONE" not in o:
+            f = _F("O", "stack: scenario %s n=%d on a 2 MiB thread in an unoptimised build ended with exit status %s (%s)" % (name, n, rc, err.strip()[-120:]),
+                   scenario=["dev-build", "stack", name, str(n), "thread"])
+            out.append(f)
+    return out
 
 
 def c03_large_children(tier):
@@ -1056,6 +1077,7 @@ def c03_large_children(tier):
     rows = []
     sizes = (20000, 100000) if tier == "quick" else (10000, 20000, 50000, 100000, 200000, 500000)
     jobs = [(sc, n, thr) for sc in ("x-sweep", "x-sweepdesc", "x-union", "x-bars") for n in sizes for thr in (False, True)]
+    jobs.append(("x-holes", 100000, True))
     from concurrent.futures import ThreadPoolExecutor
     def run(j):
         sc, n, thr = j
@@ -1066,6 +1088,7 @@ def c03_large_children(tier):
             if rc != 0 or "DONE" not in out:
                 findings.append(_F("O", "large input: boolean operation %s with %d teeth%s ended with exit status %s (%s)" % (
                     sc, n, " on a 2 MiB thread" if thr else "", rc, err.strip()[-120:]), scenario=["stack", sc, str(n)] + (["thread"] if thr else [])))
+    findings.extend(_dev_stack_jobs([]))
     return findings, {"large_children": rows}
 
 
